@@ -57,8 +57,8 @@ overload taking a ProgressBar is not instantiated by the drivers and therefore n
 follows the callback" is implemented in the weaker inter-procedural form stated under H1 because a flush inside
 handle_complete_relation is redundant with the one every second-pass handler performs after add().
 """
-from ..c11_util import (call_edge_filter, calls, can_follow, counts_from_zero_by_one, every_path_passes, exactly_once, guard_conds, in_loop, live,
-                        nonzero_guarded, origin, param_root, range_loops, subtree_calls, var_edge_filter, zero_test)
+from ..c11_util import (Collector, call_edge_filter, elem_loops, inline_calls, calls, can_follow, counts_from_zero_by_one, every_path_passes, exactly_once, guard_conds, in_loop, live,
+                        nonzero_guarded, origin, param_root, subtree_calls, var_edge_filter, zero_test)
 from ..flow import describe_path
 from .. import sorted as S
 
@@ -436,13 +436,13 @@ def add_rules(fb, R, M):
         ok = an is not None and an.get('q') == 'osmium::OSMObject::id' and fn.root_var(an.get('recv')) == param_root(fn, 0)
         R.check(ok, 'A1-add-decrements-each-found-element', q + '#looks-up-by-the-object-id', fn.loc(fcall['id']),
                 'add() must search for object.id() of its first parameter')
-        loops = [L for L in range_loops(fn) if fn.root_var(L.range_init) == rroot]
+        loops = [L for L in elem_loops(fn) if fn.root_var(L.seq) == rroot]
         if len(loops) != 1:
             R.bad('A1-add-decrements-each-found-element', q + '#one-decrement-per-element', fn.site,
                   'add() does not iterate over the found range exactly once (%d loops)' % len(loops))
             continue
         L = loops[0]
-        lroot = ('var', L.var_d, L.var_name)
+        lroots = L.roots
         # handle of the element's relation
         hvars = []
         for n in fn.all_nodes():
@@ -450,7 +450,7 @@ def add_rules(fb, R, M):
                 for v in n['vars']:
                     if isinstance(v.get('init'), int):
                         cs = subtree_calls(fn, v['init'], RDB + '::operator[]')
-                        if cs and any(_elem_field_of(fn, a, M) and fn.root_var(a) == lroot for a in cs[0].get('args', []) if a is not None):
+                        if cs and any(_elem_field_of(fn, a, M) and fn.root_var(a) in lroots for a in cs[0].get('args', []) if a is not None):
                             hvars.append(('var', v['d'], v['name']))
         if len(hvars) != 1:
             R.bad('A1-add-decrements-each-found-element', q + '#one-decrement-per-element', fn.site,
@@ -459,7 +459,7 @@ def add_rules(fb, R, M):
         h = hvars[0]
         decs = [n for n in calls(fn, RH + '::decrement_members')]
         on_h = [n for n in decs if fn.root_var(n['recv']) == h]
-        why = exactly_once(fn, [n['id'] for n in on_h], start=L.var_decl, until=[L.inc]) if on_h else 'no decrement on the element\'s relation handle'
+        why = exactly_once(fn, [n['id'] for n in on_h], start=L.start, until=[L.inc]) if on_h else 'no decrement on the element\'s relation handle'
         R.check(why is None and len(on_h) == len(decs), 'A1-add-decrements-each-found-element', q + '#one-decrement-per-element', fn.site,
                 'decrement_members() per found element: %s' % (why or 'a decrement targets another handle'))
         # A2
@@ -527,7 +527,7 @@ def _add_object_rule(fb, R, M, g):
                 if isinstance(v.get('init'), int) and subtree_calls(g, v['init'], STASH + '::add_item'):
                     hv = ('var', v['d'], v['name'])
     rp = [param_root(g, i) for i, p in enumerate(g.params) if 'iterator_range' in p['tC']]
-    loops = [L for L in range_loops(g) if g.root_var(L.range_init) in rp]
+    loops = [L for L in elem_loops(g) if g.root_var(L.seq) in rp]
     ok = len(adds) == 1 and hv is not None and len(loops) == 1 and g.root_var(adds[0]['args'][0]) == param_root(g, 0)
     msg = 'add_object must add the object to the stash once and loop over the range parameter'
     if ok:
@@ -541,9 +541,9 @@ def _add_object_rule(fb, R, M, g):
                 tgt, val = n['lhs'], n['rhs']
             if tgt is None or val is None:
                 continue
-            if _elem_field_of(g, tgt, M) and g.root_var(tgt) == ('var', L.var_d, L.var_name) and g.root_var(val) == hv:
+            if _elem_field_of(g, tgt, M) and g.root_var(tgt) in L.roots and g.root_var(val) == hv:
                 stores.append(n['id'])
-        why = exactly_once(g, stores, start=L.var_decl, until=[L.inc]) if stores else 'no element field is assigned the stash handle'
+        why = exactly_once(g, stores, start=L.start, until=[L.inc]) if stores else 'no element field is assigned the stash handle'
         ok = why is None and L.mutable_reference()
         msg = 'per element of the range: %s%s' % (why or 'stored', '' if L.mutable_reference() else '; the loop variable is a copy, the handle is lost')
     R.check(ok, 'A3-object-stored-before-callback', key, g.site, msg)
@@ -668,20 +668,20 @@ def remove_rules(fb, R, M):
         R.check(ok, 'R1-release-only-last-reference', q + '#releases-the-handle-of-the-found-range', fn.site,
                 'the stash item released must be the object handle stored in the found range')
         # ---- R3
-        loops = [L for L in range_loops(fn) if fn.root_var(L.range_init) == rroot]
+        loops = [L for L in elem_loops(fn) if fn.root_var(L.seq) == rroot]
         p_rel = None
         ok, msg = True, ''
         if len(loops) != 1 or not marks:
             ok, msg = False, 'no single loop over the found range that marks an element'
         else:
             L = loops[0]
-            lroot = ('var', L.var_d, L.var_name)
+            lroots = L.roots
             for m in marks:
-                if fn.root_var(m['recv']) != lroot or not L.mutable_reference():
+                if fn.root_var(m['recv']) not in lroots or not L.mutable_reference():
                     ok, msg = False, 'the mark is not applied to the stored element (loop variable must be a non-const reference)'
                     continue
                 gs = guard_conds(fn, m['id'])
-                unmarked = any(n.get('k') == 'call' and n.get('q') == pred_q and fn.root_var(n['recv']) == lroot and not s for (n, s) in gs)
+                unmarked = any(n.get('k') == 'call' and n.get('q') == pred_q and fn.root_var(n['recv']) in lroots and not s for (n, s) in gs)
                 same_rel = False
                 for (n, s) in gs:
                     if n.get('k') == 'binop' and n['op'] == '==' and s:
@@ -689,7 +689,7 @@ def remove_rules(fb, R, M):
                             yn = fn.sn(y)
                             if fn.root_var(x) in proots and (fn.sn(x) or {}).get('k') == 'var' and yn is not None and yn.get('q') == 'osmium::OSMObject::id':
                                 idx = [c for c in subtree_calls(fn, y, RDB + '::operator[]')
-                                       if any(_elem_field_of(fn, a, M) and fn.root_var(a) == lroot for a in c.get('args', []) if a is not None)]
+                                       if any(_elem_field_of(fn, a, M) and fn.root_var(a) in lroots for a in c.get('args', []) if a is not None)]
                                 if idx:
                                     same_rel = True
                                     p_rel = proots.index(fn.root_var(x))
@@ -831,13 +831,13 @@ def second_pass_rules(fb, R, M):
                 'unexpected call reaching ItemStash::remove_item: %s' % (other[0]['q'] if other else ''))
         # every wanted member released
         ok, msg = True, ''
-        loops = [L for L in range_loops(fn)
-                 if (fn.sn(L.range_init) or {}).get('q') == 'osmium::Relation::members' and fn.root_var(L.range_init) == h]
+        loops = [L for L in elem_loops(fn)
+                 if (origin(fn, L.seq) or {}).get('q') == 'osmium::Relation::members' and fn.root_var((origin(fn, L.seq) or {}).get('id')) == h]
         if len(loops) != 1 or not mrel:
             ok, msg = False, 'no single loop over handle->members() that releases the members'
         else:
             L = loops[0]
-            lroot = ('var', L.var_d, L.var_name)
+            lroots = L.roots
             for n in mrel:
                 if not in_loop(fn, L, n['id']):
                     ok, msg = False, 'member release outside the member loop'
@@ -845,10 +845,10 @@ def second_pass_rules(fb, R, M):
                 args = n.get('args', [])
                 rc = origin(fn, n['recv'])
                 sel = rc is not None and rc.get('q') == RMB + '::member_database' and \
-                    any((fn.sn(a) or {}).get('q') == MEMBER + '::type' and fn.root_var(a) == lroot for a in rc.get('args', []) if a is not None)
+                    any((fn.sn(a) or {}).get('q') == MEMBER + '::type' and fn.root_var(a) in lroots for a in rc.get('args', []) if a is not None)
                 if not sel:
                     ok, msg = False, 'the database is not selected by member_database(member.type()) of the current member'
-                elif p_find is not None and not ((fn.sn(args[p_find]) or {}).get('q') == MEMBER + '::ref' and fn.root_var(args[p_find]) == lroot):
+                elif p_find is not None and not ((fn.sn(args[p_find]) or {}).get('q') == MEMBER + '::ref' and fn.root_var(args[p_find]) in lroots):
                     ok, msg = False, 'the member released is not the current member\'s ref()'
                 elif p_rel is not None and fn.root_var(args[p_rel]) != h:
                     ok, msg = False, 'the relation id given is not the completed relation\'s'
@@ -859,17 +859,17 @@ def second_pass_rules(fb, R, M):
                     zn = fn.sn(z[1]) if z else None
                     if g.get('k') == 'call' and g.get('op') == '!=' and g.get('q', '').endswith('operator!='):
                         continue        # the loop condition itself
-                    if not (z and zn is not None and zn.get('q') == MEMBER + '::ref' and fn.root_var(z[1]) == lroot and ((z[0] == '!=') == s)):
+                    if not (z and zn is not None and zn.get('q') == MEMBER + '::ref' and fn.root_var(z[1]) in lroots and ((z[0] == '!=') == s)):
                         ok, msg = False, 'the release is subject to a condition other than member.ref() != 0: %s' % fn.expr(g['id'])[:60]
             if ok:
-                def edge_ok(b, idx, s, fn=fn, lroot=lroot):
+                def edge_ok(b, idx, s, fn=fn, lroots=lroots):
                     blk = fn.blocks[b]
                     if 'cond' in blk and len(blk['succs']) == 2:
                         z = zero_test(fn, fn.sn(blk['cond']))
-                        if z and (fn.sn(z[1]) or {}).get('q') == MEMBER + '::ref' and fn.root_var(z[1]) == lroot:
+                        if z and (fn.sn(z[1]) or {}).get('q') == MEMBER + '::ref' and fn.root_var(z[1]) in lroots:
                             return idx == (0 if z[0] == '!=' else 1)
                     return True
-                w = every_path_passes(fn, [n['id'] for n in mrel], start=L.var_decl, until=[L.inc], edge_ok=edge_ok)
+                w = every_path_passes(fn, [n['id'] for n in mrel], start=L.start, until=[L.inc], edge_ok=edge_ok)
                 if w is not None:
                     ok, msg = False, 'a wanted member (ref != 0) is not released: ' + describe_path(fn, w)
                 elif can_follow(fn, [n['id'] for n in mrel], [n['id'] for n in mrel], [L.inc]) is not None:
@@ -920,15 +920,15 @@ def first_pass_rules(fb, R, M):
         ok = ok and bool(g) and all(s for (_n, s) in g) and all(fn.root_var((n.get('args') or [None])[0]) == param_root(fn, 0) for (n, _s) in g)
         R.check(ok, 'W1-track-xor-mark', q + '#stored-only-if-new_relation-accepts-it', fn.loc(addc['id']),
                 'the relation must be stored exactly under derived().new_relation(relation)')
-        loops = [L for L in range_loops(fn) if (fn.sn(L.range_init) or {}).get('q') == 'osmium::Relation::members' and fn.root_var(L.range_init) == hv]
+        loops = [L for L in elem_loops(fn) if (origin(fn, L.seq) or {}).get('q') == 'osmium::Relation::members' and fn.root_var((origin(fn, L.seq) or {}).get('id')) == hv]
         if len(loops) != 1:
             R.bad('W1-track-xor-mark', q + '#each-member-tracked-xor-zeroed', fn.site,
                   'no single loop over the members of the STORED relation copy (handle->members())')
             continue
         L = loops[0]
-        lroot = ('var', L.var_d, L.var_name)
+        lroots = L.roots
         tracks = [c for tq in track_q for c in calls(fn, tq)]
-        zeros = [c for c in calls(fn, MEMBER + '::set_ref', on=lroot) if fn.const_value((c.get('args') or [None])[0]) == 0]
+        zeros = [c for c in [c for c in calls(fn, MEMBER + '::set_ref') if fn.root_var(c['recv']) in lroots] if fn.const_value((c.get('args') or [None])[0]) == 0]
         zero_sites |= {(fn.q, c['id']) for c in zeros}
         ids = [c['id'] for c in tracks + zeros]
         ok, msg = True, ''
@@ -937,15 +937,15 @@ def first_pass_rules(fb, R, M):
         elif not zeros:
             ok, msg = False, 'uninteresting members are not zeroed: consumers would look them up / release them'
         else:
-            why = exactly_once(fn, ids, start=L.var_decl, until=[L.inc])
+            why = exactly_once(fn, ids, start=L.start, until=[L.inc])
             if why is not None:
                 ok, msg = False, 'per member, track() / set_ref(0): %s' % why
         for c in tracks:
             args = c.get('args', [])
             rc = origin(fn, c['recv'])
             sel = rc is not None and rc.get('q') == RMB + '::member_database' and \
-                any((fn.sn(a) or {}).get('q') == MEMBER + '::type' and fn.root_var(a) == lroot for a in rc.get('args', []) if a is not None)
-            refs = [a for a in args if a is not None and (fn.sn(a) or {}).get('q') == MEMBER + '::ref' and fn.root_var(a) == lroot]
+                any((fn.sn(a) or {}).get('q') == MEMBER + '::type' and fn.root_var(a) in lroots for a in rc.get('args', []) if a is not None)
+            refs = [a for a in args if a is not None and (fn.sn(a) or {}).get('q') == MEMBER + '::ref' and fn.root_var(a) in lroots]
             if ok and not (sel and refs and any(fn.root_var(a) == hv for a in args if a is not None)):
                 ok, msg = False, 'track() must be called on member_database(member.type()) with the stored relation\'s handle and member.ref() of the current member'
         R.check(ok, 'W1-track-xor-mark', q + '#each-member-tracked-xor-zeroed', fn.site, msg)
@@ -988,7 +988,7 @@ def first_pass_rules(fb, R, M):
             inc = counts_from_zero_by_one(fn, d)
             if inc is None or not in_loop(fn, L, inc):
                 ok, msg = False, 'the position counter does not start at 0 / is not incremented by one inside the member loop'
-            elif exactly_once(fn, [inc], start=L.var_decl, until=[L.inc]) is not None:
+            elif exactly_once(fn, [inc], start=L.start, until=[L.inc]) is not None:
                 ok, msg = False, 'the position counter is not incremented exactly once per member (skipped members shift all later positions)'
             elif can_follow(fn, [inc], [c['id']], [L.inc]) is not None:
                 ok, msg = False, 'the position counter is incremented before it is passed to track()'
@@ -1060,42 +1060,90 @@ def dispatch_rules(fb, R, M):
                 return
             dbs[f['name']] = int(it[0]['cv'])
     names = {int(e['value']): e['name'] for e in en['enumerators']}
-    fns = [f for f in fb.functions if f.cls == RMB and f.has_cfg and f.switches and len(f.params) == 1 and S.plain_name(f.params[0]['tC']) == 'osmium::item_type'
-           and S.plain_name(f.retC) == MDC]
+    fns = [f for f in fb.functions if f.cls == RMB and f.has_cfg and not f.is_lambda and len(f.params) == 1
+           and S.plain_name(f.params[0]['tC']) == 'osmium::item_type' and S.plain_name(f.retC) == MDC]
     if not fns:
         R.broken('%s: no item_type -> MembersDatabaseCommon& dispatch function found' % RMB)
         return
     for fn in fns:
         tag = 'const' if fn.const else 'mutable'
-        sw = [b for b in fn.blocks.values() if b.get('termcls') == 'SwitchStmt']
-        on_param = len(sw) == 1 and fn.root_var(sw[0].get('cond')) == param_root(fn, 0)
-        cases = {}
-        for b in fn.blocks.values():
-            lab = b.get('label') or {}
-            if 'case' in lab:
-                v = fn.const_value(lab['case'])
-                # first return reachable from the case label
-                seen, work, ret = set(), [b['id']], None
-                while work and ret is None:
-                    x = work.pop(0)
-                    if x in seen:
-                        continue
-                    seen.add(x)
-                    for e in fn.blocks[x]['elems']:
-                        if fn.nodes[e].get('k') == 'return':
-                            ret = fn.nodes[e]
-                            break
-                    work.extend(fn.succs(x))
-                cases[v] = ret
         for fname, v in sorted(dbs.items(), key=lambda kv: kv[1]):
             key = '%s[%s]#case-%s' % (fn.q, tag, names.get(v, v))
-            ret = cases.get(v)
-            got = None
-            if ret is not None and 'sub' in ret:
-                r = fn.root_var(ret['sub'])
-                got = r[2] if r is not None and r[0] == 'field' else None
-            R.check(on_param and got == fname, 'D1-member-database-dispatch', key, fn.loc(ret['id']) if ret else fn.site,
-                    'case item_type::%s must return %s (MembersDatabase of that object type), it returns %s' % (names.get(v, v), fname, got))
+            rets = _returns_for_value(fn, fn.params[0]['d'], v)
+            got = set()
+            for r in rets:
+                rv = fn.root_var(r['sub']) if 'sub' in r else None
+                got.add(rv[2] if rv is not None and rv[0] == 'field' else '?')
+            R.check(got == {fname}, 'D1-member-database-dispatch', key, fn.loc(rets[0]['id']) if rets else fn.site,
+                    'for item_type::%s the function must return %s (MembersDatabase of that object type), it returns %s' % (
+                        names.get(v, v), fname, ', '.join(sorted(got)) or 'nothing'))
+
+
+def _returns_for_value(fn, param_d, v):
+    """Return statements reachable when the integer/enum parameter `param_d` has the constant value v: the CFG is walked
+    following, at a switch on the parameter, only the matching case (or default) and, at a branch whose condition is
+    `param == c` / `param != c`, only the edge the value selects; every other branch is followed both ways, failed
+    assertions are dead ends.  Spelling-independent: switch, if-chain, early returns and mixtures give the same set."""
+    def is_param(nid):
+        n = fn.sn(nid)
+        return n is not None and n.get('k') == 'var' and n.get('d') == param_d
+
+    rets, seen, work = [], set(), [fn.entry]
+    while work:
+        b = work.pop()
+        if b in seen:
+            continue
+        seen.add(b)
+        blk = fn.blocks[b]
+        stop = False
+        for e in blk['elems']:
+            n = fn.nodes[e]
+            if n.get('k') == 'return':
+                rets.append(n)
+                stop = True
+                break
+            if n.get('k') == 'call' and n.get('q') in ('__assert_fail', 'abort', 'std::abort', 'std::terminate'):
+                stop = True
+                break
+        if stop:
+            continue
+        succs = blk['succs']
+        if blk.get('termcls') == 'SwitchStmt' and 'cond' in blk and is_param(blk['cond']):
+            match = dflt = None
+            plain = []
+            for s_ in succs:
+                if s_ is None:
+                    continue
+                lab = fn.blocks[s_].get('label') or {}
+                if 'case' in lab:
+                    if fn.const_value(lab['case']) == v:
+                        match = s_
+                elif lab.get('default'):
+                    dflt = s_
+                else:
+                    plain.append(s_)
+            work.extend([match] if match is not None else [dflt] if dflt is not None else plain)
+            continue
+        if 'cond' in blk and len(succs) == 2:
+            c = fn.sn(blk['cond'])
+            neg = False
+            while c is not None and c.get('k') == 'unop' and c.get('op') == '!':
+                neg = not neg
+                c = fn.sn(c['sub'])
+            if c is not None and c.get('k') == 'binop' and c.get('op') in ('==', '!='):
+                for (x, y) in ((c['lhs'], c['rhs']), (c['rhs'], c['lhs'])):
+                    cv = fn.const_value(y)
+                    if is_param(x) and cv is not None:
+                        truth = ((cv == v) == (c['op'] == '==')) != neg
+                        t = succs[0 if truth else 1]
+                        if t is not None:
+                            work.append(t)
+                        break
+                else:
+                    work.extend(x for x in succs if x is not None)
+                continue
+        work.extend(x for x in succs if x is not None)
+    return rets
 
 
 def listing_rules(fb, R, M):
